@@ -61,12 +61,23 @@ Section Shape.
     - intros d Hd. cbn. destruct (Nat.eqb_spec d n); [lia | apply Hf; lia].
   Qed.
 
+  Notation te_agree := (te_agree lty).
+  Lemma te_agree_weaken n n' te1 te2 : (n <= n')%nat -> te_agree n' te1 te2 -> te_agree n te1 te2.
+  Proof. intros Hn H d Hd. apply H. lia. Qed.
+  Lemma te_agree_tr n te1 te2 te3 : te_agree n te1 te2 -> te_agree n te2 te3 -> te_agree n te1 te3.
+  Proof. intros H1 H2 d Hd. rewrite H2 by exact Hd. apply H1. exact Hd. Qed.
+  Lemma te_agree_cons_ n te d t : (n <= d)%nat -> te_agree n te ((d, t) :: te).
+  Proof.
+    intros Hd d' Hd'. unfold loc_ty. cbn [assoc].
+    destruct (Nat.eqb_spec d' d); [lia | reflexivity].
+  Qed.
+
   Definition okshape (s s' : lst) (code : list lstmt) : Prop :=
-    (g s <= g s')%nat /\ labels_in (g s) (g s') code /\ neutral (g s) code.
+    (g s <= g s')%nat /\ labels_in (g s) (g s') code /\ neutral (g s) code /\ te_agree (g s) (te s) (te s').
 
   Lemma ok_leaf s code : (code = [] \/ (exists t k i, code = [LInstr t k i])) -> okshape s s code.
   Proof.
-    intros [->|[t [k [i ->]]]]; (split; [lia|split]).
+    intros [->|[t [k [i ->]]]]; (split; [lia|split; [|split; [|intros d _; reflexivity]]]).
     - constructor.
     - apply neutral_nil.
     - repeat constructor.
@@ -80,16 +91,15 @@ Section Shape.
   Proof.
     intros Ha Hk H. unfold seq in H. destruct a as [[c1 s1]| | |]; try discriminate.
     destruct (k s1) as [[c2 s2]| | |] eqn:Ek; try discriminate. inversion H; subst.
-    destruct (Ha c1 s1 eq_refl) as [G1 [L1 N1]].
-    destruct (Hk s1 c2 s' G1 Ek) as [G2 [L2 N2]].
-    split; [lia|split].
+    destruct (Ha c1 s1 eq_refl) as [G1 [L1 [N1 T1]]].
+    destruct (Hk s1 c2 s' G1 Ek) as [G2 [L2 [N2 T2]]].
+    split; [lia|split; [|split]].
     - apply labels_in_app; [eapply labels_in_mono; [| |exact L1]; lia | eapply labels_in_mono; [| |exact L2]; lia].
     - apply neutral_app; [exact N1 | eapply neutral_weaken; [|exact N2]; lia].
+    - eapply te_agree_tr; [exact T1 | eapply te_agree_weaken; [|exact T2]; lia].
   Qed.
 
   (* okshape is insensitive to the te component; relate states by their counters *)
-  Lemma ok_shift s0 s s' code : g s0 = g s -> okshape s s' code -> okshape s0 s' code.
-  Proof. intros E [G [L N]]. unfold okshape. rewrite E. auto. Qed.
 
   Ltac leaf :=
     cbv beta in *;
@@ -116,9 +126,11 @@ Section Shape.
       apply seq_ok in Er. destruct Er as [c1 [s3 [cr2 [H1 [Er Hc]]]]].
       apply seq_ok in Er. destruct Er as [c2 [s4 [c3 [H2 [H3 Hc3]]]]].
       unfold ret in H3. inversion H3; subst c3 sr. clear H3. subst cr cr2.
-      destruct (Hrec _ _ _ _ H1) as [G1 [L1 N1]]. destruct (Hrec _ _ _ _ H2) as [G2 [L2 N2]].
-      cbn [g] in *.
-      split; [lia|split].
+      destruct (Hrec _ _ _ _ H1) as [G1 [L1 [N1 T1]]]. destruct (Hrec _ _ _ _ H2) as [G2 [L2 [N2 T2]]].
+      cbn [g te] in *.
+      split; [lia|split; [|split]].
+      3: { eapply te_agree_tr; [apply (te_agree_cons_ (g s0) (te s0) (g s0) tmp_ty); lia|].
+           eapply te_agree_tr; [eapply te_agree_weaken; [|exact T1]; lia | eapply te_agree_weaken; [|exact T2]; lia]. }
       - cbn [app]. constructor; [exact I|].
         apply labels_in_app; [eapply labels_in_mono; [| |exact L1]; lia|].
         apply labels_in_app; [eapply labels_in_mono; [| |exact L2]; lia | repeat constructor].
@@ -153,26 +165,20 @@ Section Shape.
     - (* CTernary *)
       unfold gen_label in H. cbn [fst snd g te] in H.
       set (s2 := mklst (S (S (g s))) (te s)) in *.
-      assert (Hin : okshape s2 s' code ->  okshape s s' code).
-      { intros [G [L N]]. cbn [g s2] in *. split; [lia|split].
-        - eapply labels_in_mono; [| |exact L]; lia.
-        - eapply neutral_weaken; [|exact N]. lia. }
-      (* the two labels belong to this call: handle them by widening the range *)
-      assert (Hlab : forall t k j s0, (g s <= j < S (S (g s)))%nat -> (S (S (g s)) <= g s0)%nat ->
-                okshape s0 s0 [] -> (g s <= g s0)%nat /\ labels_in (g s) (g s0) [LLabel t (LGen k j)] /\ neutral (g s) [LLabel t (LGen k j)]).
-      { intros t k j s0 Hj Hs0 _. split; [lia|split]; [repeat constructor; cbn; lia | apply neutral_label]. }
       apply seq_ok in H. destruct H as [c1 [s3 [r1 [H1 [H Hc1]]]]].
       apply seq_ok in H. destruct H as [c2 [s4 [r2 [H2 [H Hc2]]]]].
       apply seq_ok in H. destruct H as [c3 [s5 [r3 [H3 [H Hc3]]]]].
       apply seq_ok in H. destruct H as [c4 [s6 [r4 [H4 [H Hc4]]]]].
       apply seq_ok in H. destruct H as [c5 [s7 [r5 [H5 [H6 Hc5]]]]].
-      destruct (Hrec _ _ _ _ H1) as [G1 [L1 N1]]. destruct (Hrec _ _ _ _ H2) as [G2 [L2 N2]].
+      destruct (Hrec _ _ _ _ H1) as [G1 [L1 [N1 T1]]]. destruct (Hrec _ _ _ _ H2) as [G2 [L2 [N2 T2]]].
       unfold need, instr, ret in H3. destruct (avail KJmp); [|discriminate]. inversion H3; subst c3 s5. clear H3.
       unfold ret in H4. inversion H4; subst c4 s6. clear H4.
-      destruct (Hrec _ _ _ _ H5) as [G5 [L5 N5]].
+      destruct (Hrec _ _ _ _ H5) as [G5 [L5 [N5 T5]]].
       unfold ret in H6. inversion H6; subst r5 s7. clear H6.
-      subst code r1 r2 r3 r4. cbn [g s2] in *.
-      split; [lia|split].
+      subst code r1 r2 r3 r4. cbn [g te s2] in *.
+      split; [lia|split; [|split]].
+      3: { eapply te_agree_tr; [eapply te_agree_weaken; [|exact T1]; lia|].
+           eapply te_agree_tr; [eapply te_agree_weaken; [|exact T2]; lia | eapply te_agree_weaken; [|exact T5]; lia]. }
       + apply labels_in_app; [eapply labels_in_mono; [| |exact L1]; lia|].
         apply labels_in_app; [eapply labels_in_mono; [| |exact L2]; lia|].
         apply labels_in_app; [repeat constructor|].
@@ -194,7 +200,7 @@ Section Shape.
         * destruct (match k with KwIf => Some op | KwUnless => negate_comparison op end); [|discriminate].
           unfold condjmp_intrinsic in H. destruct (negb _); [discriminate|].
           destruct (alt_condjmp_for avail b0 ta) as [[|]|]; try discriminate; [leaf|].
-          unfold seq, instr, ret in H. inversion H; subst. split; [lia|split]; [repeat constructor | intros m _; reflexivity].
+          unfold seq, instr, ret in H. inversion H; subst. split; [lia|split; [|split]]; [repeat constructor | intros m _; reflexivity | intros d _; reflexivity].
         * apply (Htemp tmp_ty s eb (fun tv => CCondCmp k a op (read_as tv read_ty) l jt)); exact H.
       + apply (Htemp tmp_ty s ea (fun tv => CCondCmp k (read_as tv read_ty) op b l jt)); exact H.
     - (* CCondLogic *)
@@ -204,11 +210,12 @@ Section Shape.
         apply seq_ok in H. destruct H as [c1 [s3 [r1 [H1 [H Hc1]]]]].
         apply seq_ok in H. destruct H as [c2 [s4 [r2 [H2 [H Hc2]]]]].
         apply seq_ok in H. destruct H as [c3 [s5 [r3 [H3 [H4 Hc3]]]]].
-        destruct (Hrec _ _ _ _ H1) as [G1 [L1 N1]]. destruct (Hrec _ _ _ _ H2) as [G2 [L2 N2]].
+        destruct (Hrec _ _ _ _ H1) as [G1 [L1 [N1 T1]]]. destruct (Hrec _ _ _ _ H2) as [G2 [L2 [N2 T2]]].
         unfold need, instr, ret in H3. destruct (avail KJmp); [|discriminate]. inversion H3; subst c3 s5. clear H3.
         unfold ret in H4. inversion H4; subst r3 s4. clear H4.
-        subst code r1 r2. cbn [g] in *.
-        split; [lia|split].
+        subst code r1 r2. cbn [g te] in *.
+        split; [lia|split; [|split]].
+        3: { eapply te_agree_tr; [eapply te_agree_weaken; [|exact T1]; lia | eapply te_agree_weaken; [|exact T2]; lia]. }
         * apply labels_in_app; [eapply labels_in_mono; [| |exact L1]; lia|].
           apply labels_in_app; [eapply labels_in_mono; [| |exact L2]; lia|].
           apply labels_in_app; [repeat constructor | repeat constructor; cbn; lia].
